@@ -309,7 +309,9 @@ func allKinds() []*wkind {
 			}
 		}},
 	}
-	mkSS := func() interface{} { return ptr(sliceWithSpare(S{3, "c", In{30}}, S{1, "a", In{10}}, S{2, "b", In{20}})) }
+	mkSS := func() interface{} {
+		return ptr(sliceWithSpare(S{3, "c", In{30}}, S{1, "a", In{10}}, S{2, "b", In{20}}))
+	}
 	// the copy-on-change arena, script ops only
 	ks = append(ks, &wkind{name: "*[]struct", mk: mkSS, probes: []string{"0", "2", "3", "A", "In", "length"},
 		alpha: alphabet{targets: []target{tgtW, tgtH0}, keys: []keyDef{kIdx(0), kIdx(1), kIdx(3), kStr("A")},
